@@ -192,7 +192,9 @@ def mk_seq(first, depth):
 def obligations(tier):
     obs = []
     depth = 2 if tier == "quick" else 3
-    for first in range(2 * NK):
+    # thorough: first events on remote 0 only -- the harness is symmetric in the two remotes (pre-state, later events and the
+    # model treat them alike), so a first event on remote 1 is the mirror image of one covered here
+    for first in (range(2 * NK) if tier == "quick" else range(0, 2 * NK, 2)):
         obs.append(Obligation(
             name="nstart-first%02d-depth%d" % (first, depth), make=mk_seq(first, depth),
             timeout=600 if tier == "quick" else 3000, functions=FUNCS,
